@@ -122,7 +122,7 @@ type VerifScript struct {
 	CertRequested    bool   // a CertificateRequest was received (client role)
 	Resuming         bool   // this handshake resumes ResumeMaster
 
-	c           *Conn // carrier of config, in/out half connections; never runs a handshake
+	c           *Conn  // carrier of config, in/out half connections; never runs a handshake
 	raw         []byte // rest of the datagram being parsed
 	hand        []byte
 	held        []byte
@@ -162,7 +162,7 @@ func NewVerifScript(role string, conn net.PacketConn, peer net.Addr, cfg *Config
 
 var verifKindOfType = map[uint8]string{
 	typeClientHello: "ClientHello", typeServerHello: "ServerHello", typeHelloVerifyRequest: "HelloVerifyRequest",
-	typeCertificate: "Certificate",
+	typeCertificate:       "Certificate",
 	typeServerKeyExchange: "ServerKeyExchange", typeCertificateRequest: "CertificateRequest",
 	typeServerHelloDone: "ServerHelloDone", typeCertificateVerify: "CertificateVerify",
 	typeClientKeyExchange: "ClientKeyExchange", typeFinished: "Finished",
@@ -179,6 +179,9 @@ var verifTypeOfKind = func() map[string]uint8 {
 // ---------------------------------------------------------------------------- state access
 
 func (s *VerifScript) Master() []byte { return append([]byte(nil), s.master...) }
+
+// HasMaster reports whether the script knows the master secret of this handshake.
+func (s *VerifScript) HasMaster() bool { return len(s.master) > 0 }
 func (s *VerifScript) ClientRandom() []byte {
 	if s.clientHello == nil {
 		return nil
